@@ -151,7 +151,8 @@ def run(c, index, tier):
         c.probe("column_" + k)
 
     def call(table, fire=()):
-        c.fault_plan = P.FaultPlan(fire)
+        kind = c.ch.weighted("f", [("runtime", 3), ("value", 2), ("cancel", 1)], "fault-kind") if fire else "runtime"
+        c.fault_plan = P.FaultPlan(fire, kind)
         numpy.random.seed(g % (2**32 - 1))
         # the same recorded splits for every call that is to be compared
         return U.sut(c, "non_linear_correlations", non_linear_correlations, table, model, draws=draws, minmax=minmax)
